@@ -5,3 +5,7 @@ package genql
 func verifStage(*Query, string, any) {}
 
 func verifCache(string, string) {}
+
+func verifNew(**Query, Map, string, []QueryOption, *error) {}
+
+func verifExec(*Query, *[]any, *error) {}
